@@ -93,28 +93,41 @@ func (fr *frame) concretizeValue(x value) value {
 	return x
 }
 
-// makeLen validates a make() length.
-func (fr *frame) makeLen(x value) int {
+// makeLen validates a make() length for elements of elemSize bytes.
+// Lengths the Go runtime rejects (negative, or more than about 2^47 bytes) panic
+// like makeslice does; legal but huge lengths (> 2^24 elements) are outside the
+// engine's bound (and outside the properties: "memory exhaustion by a single huge
+// allocation") and prune the path with a note.
+func (fr *frame) makeLen(x value) int { return fr.makeLenSized(x, 8) }
+
+func (fr *frame) makeLenSized(x value, elemSize int64) int {
+	if elemSize < 1 {
+		elemSize = 1
+	}
+	maxElems := int64(1<<47) / elemSize
+	const engineCap = 1 << 24
+	note := "allocations of more than 2^24 elements are outside the bound (paths pruned)"
 	if s, ok := x.(sym); ok {
-		// out-of-range lengths panic; huge ones are fatal; otherwise concretise
 		c := s.t.C
 		t := c.Resize(s.t, 64, ksigned(s.k))
 		if fr.truth(mkval(c.SLt(t, c.BVC(64, 0)), types.Bool)) {
 			panic("runtime error: makeslice: len out of range")
 		}
-		if fr.truth(mkval(c.SLt(c.BVC(64, 1<<24), t), types.Bool)) {
-			if fr.truth(mkval(c.SLt(c.BVC(64, 1<<47), t), types.Bool)) {
+		if fr.truth(mkval(c.SLt(c.BVC(64, engineCap), t), types.Bool)) {
+			if fr.truth(mkval(c.SLt(c.BVC(64, uint64(maxElems)), t), types.Bool)) {
 				panic("runtime error: makeslice: len out of range")
 			}
-			panic(fatalPanic{"huge allocation (symbolic length > 2^24 elements)"})
+			fr.i.ps.res.Assumes[note] = true
+			fr.i.ps.abort("assume", note)
 		}
 	}
 	n := fr.asInt64(x)
-	if n < 0 || n > 1<<47 {
+	if n < 0 || n > maxElems {
 		panic("runtime error: makeslice: len out of range")
 	}
-	if n > 1<<24 {
-		panic(fatalPanic{fmt.Sprintf("huge allocation (%d elements)", n)})
+	if n > engineCap {
+		fr.i.ps.res.Assumes[note] = true
+		fr.i.ps.abort("assume", note)
 	}
 	return int(n)
 }
